@@ -166,6 +166,9 @@ def unalias(cfg: CFG, node: Node, expr: Optional[ast.AST], depth: int = 6) -> Op
             return name
         dn = ds[0]
         v = def_value(cfg, dn)
+        if isinstance(v, ast.Name) and v.id == name and dn.meta.get('inlined_param'):
+            # `x = x`: a helper's parameter bound to the caller's variable of the same name - look further back
+            return canon(name, dn, d - 1)
         if not isinstance(v, ast.Name) or v.id == name:
             return name
         # the source must not have been re-assigned between the copy and the use
